@@ -377,6 +377,7 @@ def pt_id(p):
         p["rows"],
         p["container"],
         p["packed"],
+        p.get("allfill", 0),
     )
 
 
@@ -461,6 +462,16 @@ def build_data(p, expected_schema):
     cols, letters = [], []
     for j, t in enumerate(T):
         ft = TCODE[t]
+        if p.get("allfill"):
+            # three rows whose middle row holds, in EVERY column, the cell equal to the
+            # column's fill: the whole line is written as missing markers only (with an
+            # empty marker and a whitespace delimiter it looks like a blank line)
+            v = fills[j]
+            if v is None or not REF.representable(ft, v, m):
+                raise Skip
+            cols.append([filler(t, 0), v, filler(t, 2)])
+            letters.append([None, "=fill", None])
+            continue
         if p["packed"]:
             avail = []
             for nm in CELLS[t]:
@@ -833,6 +844,8 @@ class Run:
             k["rows"] = p["rows"]
         if p["packed"] and p["rows"] != BIG_ROWS:
             k["packed"] = 1
+        if p.get("allfill"):
+            k["allfill"] = 1
         for j, t in enumerate(T):
             if p["fills"][j] != DEF_FILL[t]:
                 a = "fill_" + TCODE[t]
@@ -1064,6 +1077,20 @@ def run_rt(key, run):
         p = default_point(spec)
         p["packed"] = PACKED_ROWS
         run.run_point(p)
+        # all-fill row on the sub-schema of the numeric columns (boolean cells are never
+        # written as missing; a string cell equal to an empty marker is not representable)
+        idx = [j for j, t in enumerate(spec["types"]) if t in "ifc"]
+        if len(idx) >= 2 or (len(idx) == 1 and len(spec["types"]) == 1):
+            spec2 = dict(spec)
+            spec2["types"] = "".join(spec["types"][j] for j in idx) if isinstance(spec["types"], str) else tuple(spec["types"][j] for j in idx)
+            spec2["fills"] = [spec["fills"][j] for j in idx]
+            if expressible(spec2):
+                p2 = default_point(spec2)
+                p2["allfill"] = 1
+                try:
+                    run.run_point(p2)
+                except Skip:
+                    pass
     run.res["sample"] = {"case": key, "data_sets": len(mine) + (1 if key["part"] == 0 else 0)}
 
 
